@@ -65,7 +65,10 @@ class QSystem(System):
                     S = dict(S)
                     S['badmsg'] = T
                     continue
-                S = self._emit(S, i, code, fl if fl is not None else F)
+                if data.get('try_'):
+                    S = self._emit_try(S, i, code, fl if fl is not None else F, obs, g)
+                else:
+                    S = self._emit(S, i, code, fl if fl is not None else F)
             else:
                 S = System._actor_effects(self, S, i, [(kind, data)], [fl], obs, g)
         return S
@@ -76,6 +79,15 @@ class QSystem(System):
         Sa = self.out.push(S, code, flag)
         Sb = self.pend[i].push(S, code, flag)
         res = ite_state(direct, Sa, Sb)
+        return ite_state(closed, S, res)
+
+    def _emit_try(self, S, i, code, flag, obs, g):
+        """try_send into the output channel: delivered if there is room (and nothing of this actor is queued before it), dropped otherwise."""
+        closed = self.closed(S)
+        room = z3.And(S[self.pend[i].name + '.len'] == 0, S['out.len'] != self.out.cap)
+        obs.add('dropped', i, z3.And(g, z3.Not(room), z3.Not(closed)))
+        Sa = self.out.push(S, code, flag)
+        res = ite_state(room, Sa, S)
         return ite_state(closed, S, res)
 
     def _main_effects(self, S, effects, flags, obs, g):
